@@ -99,6 +99,11 @@ func genPolicy(r *simctl.Rand, est int) simctl.Policy {
 	p.Pool = []int{0, 0, 0, 1, 2}[p.Seed%5]
 	// simulated time passing between steps ("the released task was slow")
 	p.Jitter = []int{0, 0, 0, 0, 0, 0, 20, 20, 200, 200}[(p.Seed/5)%10]
+	// a CPU quota below the core count: GOMAXPROCS(0) < NumCPU in one run of four
+	p.GMP = []int{0, 0, 0, 0, 0, 0, 1, 2, 3, 5}[(p.Seed/50)%10]
+	if p.Kind == "first" || p.Kind == "last" {
+		p.GMP = []int{0, 0, 1, 2}[r.Intn(4)]
+	}
 	return p
 }
 
@@ -139,7 +144,7 @@ func Plan(tier string, seed uint64) []Cfg {
 	var out []Cfg
 	for i := 0; i < n; i++ {
 		c := Cfg{Prop: "C18", QSeed: r.Uint64()}
-		light := light // (narrowed below for huge inputs, for this case only)
+		light, heavy := light, heavy // (narrowed below for huge and for short inputs, for this case only)
 		nin := 1 + r.Intn(3)
 		for k := 0; k < nin; k++ {
 			// powers of two and sizes just around them included: table and
@@ -148,7 +153,7 @@ func Plan(tier string, seed uint64) []Cfg {
 			if r.Intn(150) == 0 {
 				sz = 125000 // a 10^6-bit sample: size-dependent fast paths only show here
 			}
-			if r.Intn(100) == 0 {
+			if r.Intn(45) == 0 {
 				sz = []int{1 << 20, 1<<20 + 1, 1<<20 + 4096}[r.Intn(3)] // 2^23 bits and more: size thresholds of parallel or chunked paths
 			}
 			c.Inputs = append(c.Inputs, InputSpec{N: sz, Seed: r.Uint64() % 16, Kind: []string{"prf", "prf", "biased", "alt", "zeros"}[r.Intn(5)]})
@@ -163,6 +168,26 @@ func Plan(tier string, seed uint64) []Cfg {
 		focus := light[r.Intn(len(light))]
 		if r.Intn(6) == 0 {
 			focus = heavy[r.Intn(len(heavy))]
+		}
+		if r.Intn(12) == 0 {
+			// short sequences, down to the standard's minimum of 100 bits: size
+			// thresholds inside a test (sparse vs dense tables, parameter
+			// selection) sit there; only entry points that admit the length
+			minBits := 1 << 30
+			for k := range c.Inputs {
+				c.Inputs[k].N = []int{13, 16, 25, 40, 63, 64, 100, 127, 128, 200}[r.Intn(10)]
+				if b := c.Inputs[k].N * 8; b < minBits {
+					minBits = b
+				}
+			}
+			var ok []int
+			for i, cd := range Catalogue {
+				if cd.MinBits <= minBits && !cd.Heavy {
+					ok = append(ok, i)
+				}
+			}
+			light, heavy = ok, ok
+			focus = ok[r.Intn(len(ok))]
 		}
 		big, huge := false, false
 		for _, sp := range c.Inputs {
@@ -185,7 +210,7 @@ func Plan(tier string, seed uint64) []Cfg {
 			}
 			light = lin
 			focus = lin[r.Intn(len(lin))]
-			if r.Intn(2) == 0 {
+			if r.Intn(4) == 0 {
 				for i, cd := range Catalogue {
 					if strings.HasPrefix(cd.Name, "FrequencyWithinBlockProto") {
 						focus = i
@@ -224,6 +249,10 @@ func Plan(tier string, seed uint64) []Cfg {
 		c.Windowed = r.Intn(2) == 0
 		c.NumCPU = []int{1, 2, 3, 4, 5, 6, 7, 8, 12, 16, 24}[r.Intn(11)]
 		if huge {
+			// (half of them under a soft memory limit, as GOMEMLIMIT sets it)
+			if r.Intn(3) > 0 {
+				c.MemLimitMB = 64
+			}
 			c.Quantum = 70000
 			if len(c.Tasks) > 3 {
 				c.Tasks = c.Tasks[:3]
@@ -328,7 +357,7 @@ func TestBatch(t *testing.T) {
 		cur := *c
 		min := false
 		if sim && len(res.Found) < 3 {
-			cur.Policy = simctl.Policy{Kind: "recorded", Pool: cur.Policy.Pool}
+			cur.Policy = cur.Policy.Recorded()
 			cur.Picks = append([]int(nil), o.Sim.Picks...)
 			evals := 0
 			still := func(x *Cfg) bool {
@@ -369,7 +398,7 @@ func TestBatch(t *testing.T) {
 		}
 		if cur.Policy.Kind != "recorded" && sim {
 			cur.Picks = append([]int(nil), fo.Sim.Picks...)
-			cur.Policy = simctl.Policy{Kind: "recorded", Pool: cur.Policy.Pool}
+			cur.Policy = cur.Policy.Recorded()
 		}
 		rf := ReplayFile{"C18", fm.Clause, fm.Detail, job.Seed, idx, job.RepoRev, cur, names(), fo.Sim.TraceHash, fo.Sim.Trace, c}
 		name := fmt.Sprintf("C18-%d-%d-%s.json", job.Seed, idx, sanitize(mm.Clause))
@@ -433,6 +462,10 @@ func TestBatch(t *testing.T) {
 			for _, sp := range c.Inputs {
 				if sp.N > 200000 {
 					res.Probes["input-of-2^23-bits-or-more"]++
+					break
+				}
+				if sp.N <= 200 {
+					res.Probes["input-of-1600-bits-or-fewer"]++
 					break
 				}
 			}
